@@ -451,6 +451,32 @@ fn access_matrix(e: &mut Eng, thorough: bool) {
             e.run(&single(&ops, &base), JudgeOpts { mapped: false, lockstep: true, eval: false }, "access-matrix");
         }
     }
+    // predicate data slots around 1024 / 8192 words and at the limit of 10000: the pre-image of PredicateExists
+    // covers the whole slot, PredicateData / PredicateDataLen address it to its last word
+    for lens in [vec![1023usize, 1024], vec![1025, 0, 3], vec![8191, 8192], vec![8193], vec![10_000, 1], vec![4096, 4097]] {
+        if !e.mine() {
+            continue;
+        }
+        let mut base = vmgen::base_case(&mut r);
+        base.solutions.truncate(2);
+        base.index = 0;
+        base.solutions[0].predicate_data = lens.iter().map(|l| (0..*l as i64).map(|j| j * 3 + 1).collect()).collect();
+        let hashes: Vec<[u8; 32]> = model::predicate_exists_hashes(&base.solutions).into_iter().collect();
+        let mut ops = vec![];
+        for h in &hashes {
+            ops.extend(crate::model::word_4_from_u8_32(*h).map(PUSH));
+            ops.extend([PEX, POP]);
+        }
+        for (si, l) in lens.iter().enumerate() {
+            let l = *l as i64;
+            ops.extend([PUSH(si as i64), DLEN, POP]);
+            // the last word, one past it, and a long range ending exactly at the end
+            ops.extend([PUSH(si as i64), PUSH((l - 1).max(0)), PUSH(i64::from(l > 0)), DATA]);
+            ops.extend([PUSH(si as i64), PUSH((l - 2000).max(0)), PUSH(l.min(2000)), DATA, PUSH(0), RES, DROP]);
+        }
+        ops.extend([PUSH(0), PUSH(lens[0] as i64), PUSH(1), DATA]);
+        e.run(&single(&ops, &base), JudgeOpts { mapped: false, lockstep: true, eval: false }, "access-matrix");
+    }
     // Sha256 for every byte length
     let base = vmgen::base_case(&mut r);
     let maxlen = if thorough { 200 } else { 80 };
